@@ -40,7 +40,8 @@ def passing_tests(wt):
 def main():
     a = sys.argv[1:]
     sid = a[0]
-    prop = sid.split("-")[0]
+    import re
+    prop = re.match(r"C\d+", sid).group(0)
     wt = "/tmp/wt_" + sid
     if "--wt" in a:
         wt = a[a.index("--wt") + 1]
